@@ -529,6 +529,8 @@ class Dataset(AbstractDataset, dict, OpMixin, GetSetDelAttrMixin):
         a: ('x0',)
         b: ('x0', 'x1')
         """
+        if name is not None and name in [ax.name for ax in self.axes if ax is not self.axes[axis]]:
+            raise ValueError("axis name already exist: {}".format(name))
         if not inplace: self = self.copy()
         self.axes[axis].set(values=values, inplace=True, name=name, **kwargs)
         if not inplace: return self
